@@ -60,6 +60,10 @@ func c13GoValues() []goTyped {
 		{"Countersignature-value", cose.Countersignature{Signature: []byte{1}}}, {"[]Countersignature-values", []cose.Countersignature{{Signature: []byte{1}}}},
 		{"*Countersignature-unsigned", &cose.Countersignature{}}, {"[]*Countersignature-with-nil", []*cose.Countersignature{nil}},
 		{"[]*Countersignature-empty", []*cose.Countersignature{}}, {"*Countersignature-nil", (*cose.Countersignature)(nil)},
+		{"[]any-of-*Countersignature", []any{&cose.Countersignature{Signature: []byte{1}}}}, {"[]any-of-list-of-*Countersignature", []any{[]*cose.Countersignature{{Signature: []byte{1}}}}},
+		{"[]any-of-[]any-of-*Countersignature", []any{[]any{&cose.Countersignature{Signature: []byte{1}}}}}, {"[][]*Countersignature", [][]*cose.Countersignature{{{Signature: []byte{1}}}}},
+		{"*Countersignature-signed", &cose.Countersignature{Signature: []byte{1}}}, {"[]*Countersignature-signed-2", []*cose.Countersignature{{Signature: []byte{1}}, {Signature: []byte{2}}}},
+		{"[]uint8-labels", []uint8{4}}, {"[]int-labels", []int{4}}, {"[]uint64-labels", []uint64{4}}, {"[1]byte-label", [1]byte{4}}, {"[]any-mixed-labels", []any{int8(4), "x"}},
 	}
 }
 
